@@ -1286,7 +1286,7 @@ func buildAnalyzeUseCase(fileReader domain.FileReader) (*app.AnalyzeUseCase, err
 	// Build CBO use case
 	cboService := service.NewCBOService()
 	cboFormatter := service.NewCBOFormatter()
-	cboUC := app.NewCBOUseCase(cboService, fileReader, cboFormatter, nil) // CBO config loader is optional
+	cboUC := app.NewCBOUseCase(cboService, fileReader, cboFormatter, service.NewCBOConfigurationLoader())
 
 	// Build LCOM use case
 	lcomService := service.NewLCOMService()
